@@ -213,7 +213,10 @@ def signature(sp, cid, payload, exp, obs):
         eo, oo = exp.split(" "), obs.split(" ")
         how = "wrong match/no-match" if any((a == "-") != (b == "-") for a, b in zip(eo, oo)) else (
             "wrong index" if any(a.split(":")[0] != b.split(":")[0] for a, b in zip(eo, oo)) else "wrong captures")
-    feat = "+".join(sorted(kinds)) or "atoms only"
     fl = payload["f"] or "-"
+    if "lookbehind" in kinds and ("capture group" in kinds or "backreference" in kinds):
+        feat = "lookbehind containing a capture group or backreference (body is matched forwards, ECMAScript matches it backwards)"
+    else:
+        feat = "+".join(sorted(kinds)) or "atoms only"
     key = "%s|%s|%s" % (feat, fl, how)
     return key, "pattern using %s (flags %s): %s" % (feat, fl, how)
